@@ -3,8 +3,8 @@
 model:    spec/Session.tla (a document under a history of read-only call kinds: ReadOnly, NeverTouched);
           Trace_Session!TCall: a call event leaves every SpinePaths variable unchanged and its result is computed from the
           state and the arguments alone
-MC:       MC_Session: all histories of length <= 3 over the 30 call kinds (27,931 states) with the action property ReadOnly
-binding:  TLC enumerates every history of length 2 (900) and simulates histories of length 12; each is replayed on a seeded
+MC:       MC_Session: all histories of length <= 3 over the 32 call kinds (33,825 states) with the action property ReadOnly
+binding:  TLC enumerates every history of length 2 (1,024) and simulates histories of length 12; each is replayed on a seeded
           document of C01's grammar.  After EVERY call a deep snapshot of the real document (every node, token, sub-token, flag,
           pointer, the measure index) and of the shared module-level defaults (HEADERS, BEKERN_CATEGORIES, hierarchy literal,
           chroma / interval tables) is logged, and the same call is made on a freshly imported copy; TLC validates: snapshot
@@ -54,8 +54,10 @@ CALLS = [
     {'op': 'dumps', 'args': D(frm=0, to=0), 'strict': False, '_last_measure': True},          # to_measure = measures_count
     {'op': 'opaque', 'args': {}, '_what': 'header_nodes'},
     {'op': 'dumps', 'args': D(enc='aekern', inc=['DURATION', 'PITCH', 'STRUCTURAL'], ids=[0, 1])},
+    {'op': 'opaque', 'args': {}, '_what': 'partial_iter'},                    # an iteration that is abandoned after its first element
+    {'op': 'iterpairs', 'args': {}},                                          # two live iterators over the same document
 ]
-assert len(CALLS) == 30
+assert len(CALLS) == 32
 
 
 def concrete(call, doc):
@@ -123,7 +125,7 @@ def main():
     run = Run('C14', a.tier, a.seed, assumptions=[
         'I2: graph output is only watched for purity (node identifiers are not compared)',
         'the snapshot covers every attribute reachable from Document/Node/Token objects and the module-level defaults'])
-    run.rule = ('every history of length 2 over the 30 call kinds (900) + simulated histories of length 12, each on its own seeded '
+    run.rule = ('every history of length 2 over the 32 call kinds (1,024) + simulated histories of length 12, each on its own seeded '
                 'document; non-trivial = distinct (document, history) sessions whose history contains a raising call or a filtered / '
                 'ranged export before another call')
     run.add_tlc(tlc.run_tlc('MC_Session', 'MC_Session_3.cfg', workers=8, timeout=900, label='MC_Session(len<=3)', tag='NOVP'))
@@ -134,7 +136,7 @@ def main():
                       label='MC_Session(simulate len=12)')
     run.add_tlc(sim)
     hists = [tuple(h['hist']) for h in pairs.vp] + [tuple(h['hist']) for h in sim.vp]
-    if len(pairs.vp) != 900 or len(sim.vp) < min(nsim, 50) // 2:
+    if len(pairs.vp) != 32 * 32 or len(sim.vp) < min(nsim, 50) // 2:
         raise MachineryError(f'unexpected number of histories: {len(pairs.vp)} pairs, {len(sim.vp)} simulated')
     global _JOBS
     if a.replay_case:
